@@ -20,7 +20,7 @@ def run(tier, seed, replay=None):
     except vbuild.BuildError as e:
         ob["ok"] = False
         ob["failures"].append("correspondence harness does not compile against the current source: " + str(e)[-400:])
-        return ck.finish(ob, rule="-")
+        return ck.finish(ob, rule="every other case goes through the bead-index route Topology::getDist(i, j) on beads of the same (reused) topology object (tags :by-bead-index); -")
     if not ob.get("driver_ok", True):
         return ck.finish(ob, rule="-")
     env = {"VERIF_SEED": str(seed)}
